@@ -164,7 +164,15 @@ func genFaultItems(r *rng, docs []Doc, lay Layout) []faultItem {
 	}
 	for k := 0; k < n; k++ {
 		name := fmt.Sprintf("flt-%d-%d", k, r.intn(10000))
-		switch r.intn(14) {
+		switch r.intn(15) {
+		case 14:
+			// X4 inside a List: a bad item between an unused item and nothing else of interest
+			bad := fmt.Sprintf(pick(r, badSchemaDocs[:4]), name)
+			lst, ok := joinDocsList([]Doc{{Text: fmt.Sprintf(irrelevantDocs[0], name+"-cm")}, {Text: bad}, {Text: fmt.Sprintf(irrelevantDocs[3], name+"-sa")}}, []int{0, 1, 2})
+			if !ok {
+				continue
+			}
+			items = append(items, faultItem{Kind: "X4.list", Path: fresh(".yaml"), Text: lst, Entries: 1})
 		case 12, 13:
 			// X4 stale broken copy: a document with the identity (kind, namespace, name) of a document of
 			// the base whose spec no longer converts, delivered before or after the good one
